@@ -241,6 +241,35 @@ func runC15(c *Ctx) {
 				c.Unknown("lane-choice", "queueing.Pipeline.Accept", fd.Pos(), "cannot find where the new item's lane is set")
 			} else {
 				sl := BackwardSlice(fn, laneVals...)
+				// the lane search may live in an unexported helper of the package: follow
+				// the calls the slice contains into their returned values
+				work := []*ssa.Function{fn}
+				seen := map[*ssa.Function]bool{fn: true}
+				for depth := 0; depth < 2; depth++ {
+					var next []*ssa.Function
+					for v := range sl {
+						cl, isCall := v.(*ssa.Call)
+						if !isCall {
+							continue
+						}
+						g := cl.Common().StaticCallee()
+						if g == nil || seen[g] || len(g.Blocks) == 0 || pkgOfFn(g) != pkgOfFn(fn) {
+							continue
+						}
+						seen[g] = true
+						next = append(next, g)
+						var rv []ssa.Value
+						for _, b := range g.Blocks {
+							if ret, isR := b.Instrs[len(b.Instrs)-1].(*ssa.Return); isR {
+								rv = append(rv, ret.Results...)
+							}
+						}
+						for v2 := range BackwardSlice(g, rv...) {
+							sl[v2] = true
+						}
+					}
+					work = append(work, next...)
+				}
 				dep := false
 				for v := range sl {
 					switch v.(type) {
@@ -248,10 +277,12 @@ func runC15(c *Ctx) {
 						if sameObj(FieldOf(v), laneF) {
 							// a read (not the store target itself)
 							isTarget := false
-							for _, b := range fn.Blocks {
-								for _, in := range b.Instrs {
-									if st, isSt := in.(*ssa.Store); isSt && st.Addr == v {
-										isTarget = true
+							for _, wf := range work {
+								for _, b := range wf.Blocks {
+									for _, in := range b.Instrs {
+										if st, isSt := in.(*ssa.Store); isSt && st.Addr == v {
+											isTarget = true
+										}
 									}
 								}
 							}
